@@ -11,7 +11,7 @@ LEVEL = 'fault_enumeration'
 RULE = ('(1) exhaustive: for 3 grammars (cache files of 1-6 kB) every truncation offset of a valid cache file; (2) single-byte '
         'substitutions: every offset x 3 replacement values for three grammars in the quick tier (4 values thorough), '
         '(3) generated histories on one cache path: build(grammar_i, options_j), rewrite the imported module with other content, '
-        'delete, truncate, corrupt bytes, swap in a file written for another grammar/options, change lark.__version__ / '
+        'delete, truncate, corrupt bytes, swap in a file written for another grammar/options, switch import_paths to another directory that holds a same-named module, change lark.__version__ / '
         'sys.version_info. After every build: no exception; behaviour on probe inputs equals an uncached build with the current files; '
         'a following identical build is a cache hit (load_grammar patched to raise) with the same behaviour. Non-trivial = build that '
         'found the file damaged or stale; distinct = (grammar, file state)')
@@ -75,17 +75,21 @@ class World(object):
         shutil.rmtree(self.dir, ignore_errors=True)
         os.makedirs(self.dir)
         self.cache = os.path.join(self.dir, 'cache.bin')
-        self.set_module(0)
+        # two import directories holding a same-named module: switching between them changes only the import_paths option
+        self.dirs = [os.path.join(self.dir, 'a'), os.path.join(self.dir, 'b')]
+        for d_ in self.dirs: os.makedirs(d_)
+        self.active = 1; self.set_module(2)
+        self.active = 0; self.set_module(0)
         self.version = None; self.pyver = None
 
     def set_module(self, i):
         self.module = i
-        with open(os.path.join(self.dir, 'mod.lark'), 'w') as f:
+        with open(os.path.join(self.dirs[self.active], 'mod.lark'), 'w') as f:
             f.write(MODULES[i])
 
     def build(self, gi, oi, cached, must_hit=False):
         _n, g, _w = GRAMMARS[gi]
-        opts = dict(OPTIONS[oi]); opts['import_paths'] = [self.dir]
+        opts = dict(OPTIONS[oi]); opts['import_paths'] = [self.dirs[self.active]]
         if cached: opts['cache'] = self.cache
         real_lg = lark.lark.load_grammar
         saved = (lark.__version__, sys.version_info)
@@ -199,13 +203,14 @@ KNOWN = {'C12-body-corruption-served': _known_body_corruption}
 def histories(draw):
     ops = []
     for _ in range(draw(st.integers(2, 8))):
-        k = draw(st.sampled_from(['build', 'build', 'build', 'module', 'delete', 'truncate', 'corrupt', 'foreign', 'version']))
+        k = draw(st.sampled_from(['build', 'build', 'build', 'module', 'delete', 'truncate', 'corrupt', 'foreign', 'version', 'switchdir']))
         if k == 'build': ops.append(['build', draw(st.integers(0, len(GRAMMARS) - 1)), draw(st.integers(0, len(OPTIONS) - 1))])
         elif k == 'module': ops.append(['module', draw(st.integers(0, len(MODULES) - 1))])
         elif k == 'truncate': ops.append(['truncate', draw(st.integers(0, 4000))])
         elif k == 'corrupt': ops.append(['corrupt', draw(st.integers(0, 64)), draw(st.integers(1, 255))])   # inside the header line
         elif k == 'foreign': ops.append(['foreign', draw(st.integers(0, len(GRAMMARS) - 1)), draw(st.integers(0, len(OPTIONS) - 1)), draw(st.integers(0, len(MODULES) - 1))])
         elif k == 'version': ops.append(['version', draw(st.sampled_from([None, '9.9.9', '1.3.0']))])
+        elif k == 'switchdir': ops.append(['switchdir', draw(st.integers(0, 1))])
         else: ops.append(['delete'])
     ops.append(['build', draw(st.integers(0, len(GRAMMARS) - 1)), draw(st.integers(0, len(OPTIONS) - 1))])
     return {'ops': ops}
@@ -249,6 +254,8 @@ def check_history(case, ctx):
                 w.set_module(op[3]); w.build(op[1], op[2], cached=True); w.set_module(keep)
                 written_under = w.version
                 damaged = True
+            elif k == 'switchdir':
+                w.active = op[1]; damaged = True
             elif k == 'version':
                 w.version = op[1]; damaged = True
     finally:
